@@ -15,6 +15,8 @@ import (
 	"go/constant"
 	"go/token"
 	"go/types"
+	"sort"
+	"strings"
 )
 
 func inLoopAST(body ast.Node, target ast.Node) bool {
@@ -369,4 +371,204 @@ func exprInt64(info *types.Info, e ast.Expr) (int64, bool) {
 		return 0, false
 	}
 	return constant.Int64Val(v)
+}
+
+// sessionOpenRule — the two file-access helpers of the session (Open, ReadFile) through which every input file
+// is read: the session pool is used exactly when the caller asks for it; a failed direct open is handed back to
+// the caller exactly when the caller asked to continue on error and ends the process otherwise; the success
+// return carries the opened file.  Readers that must turn a missing file into a run error (weather year files)
+// rely on the first, readers of shared parameter files on the pool.
+func sessionOpenRule(p *Prog, r *Report, rule string) {
+	r.Rule(rule, "session file access (Open, ReadFile): the pooled read is taken exactly under the descriptor's pool flag, the direct open exactly without it; after a failed direct open the error is returned exactly under the continue-on-error flag and the process ends otherwise; nothing is returned as success on the failure path; the optional log channel is used only when present; the result-file opener hands path and append flag on unchanged and ends the process exactly when opening failed", 9)
+	for _, name := range []string{"Open", "ReadFile"} {
+		fi := p.Funcs["hermes.HermesSession."+name]
+		if fi == nil {
+			r.Ob("session:"+name, "-", false, "HermesSession."+name+" not found")
+			continue
+		}
+		info := fi.Pkg.TypesInfo
+		body := fi.Decl.Body
+		var fd types.Object
+		if pl := fi.Decl.Type.Params.List; len(pl) == 1 && len(pl[0].Names) == 1 {
+			fd = info.Defs[pl[0].Names[0]]
+		}
+		flag := func(e ast.Expr, field string) bool {
+			sel, ok := stripParens(e).(*ast.SelectorExpr)
+			return ok && sel.Sel.Name == field && useObj(info, sel.X) == fd && fd != nil
+		}
+		condsOf := func(n ast.Node) string {
+			cs, _ := astPathConds(info, body, n)
+			var ss []string
+			for _, c := range cs {
+				switch {
+				case flag(c.E, "UseFilePool"):
+					ss = append(ss, map[bool]string{false: "pool", true: "!pool"}[c.Neg])
+				case flag(c.E, "ContinueOnError"):
+					ss = append(ss, map[bool]string{false: "continue", true: "!continue"}[c.Neg])
+				default:
+					if be, ok := stripParens(c.E).(*ast.BinaryExpr); ok && (be.Op == token.NEQ || be.Op == token.EQL) {
+						if tv, ok := info.Types[be.Y]; ok && tv.IsNil() {
+							if o := useObj(info, be.X); o != nil && types.Implements(o.Type(), errorType.Underlying().(*types.Interface)) {
+								failed := (be.Op == token.NEQ) != c.Neg
+								ss = append(ss, map[bool]string{true: "failed", false: "!failed"}[failed])
+								continue
+							}
+						}
+					}
+					ss = append(ss, "other("+types.ExprString(c.E)+")")
+				}
+			}
+			sort.Strings(ss)
+			return strings.Join(ss, " ∧ ")
+		}
+		var poolCall, openCall *ast.CallExpr
+		ast.Inspect(body, func(n ast.Node) bool {
+			if c, ok := n.(*ast.CallExpr); ok {
+				if f := callee(info, c); f != nil {
+					switch {
+					case f.Name() == "Get" && f.Pkg() != nil && f.Pkg().Name() == "hermes":
+						poolCall = c
+					case f.Pkg() != nil && f.Pkg().Path() == "os" && (f.Name() == "Open" || f.Name() == "ReadFile"):
+						openCall = c
+					}
+				}
+			}
+			return true
+		})
+		if poolCall == nil || openCall == nil {
+			r.Ob("session:"+name+":calls", p.Pos(fi.Decl.Pos()), false, "pooled read or direct open not found")
+			continue
+		}
+		pc, oc := condsOf(poolCall), condsOf(openCall)
+		r.Ob("session:"+name+":pool", p.Pos(poolCall.Pos()), pc == "pool" && oc == "!pool", fmt.Sprintf("pooled read under [%s] (must be the pool flag), direct open under [%s] (must be its negation)", pc, oc))
+		// the opened path is the descriptor's path
+		okPath := len(openCall.Args) == 1 && flag(openCall.Args[0], "FilePath")
+		r.Ob("session:"+name+":path", p.Pos(openCall.Pos()), okPath, fmt.Sprintf("the file opened is the descriptor's path: %v", okPath))
+		// returns
+		okRet, det := true, ""
+		nErr, nOK := 0, 0
+		ast.Inspect(body, func(n ast.Node) bool {
+			rs, ok := n.(*ast.ReturnStmt)
+			if !ok || len(rs.Results) == 0 {
+				return true
+			}
+			last := rs.Results[len(rs.Results)-1]
+			cs := condsOf(rs)
+			if tv, ok := info.Types[last]; ok && tv.IsNil() {
+				// success return: pooled arm or after a successful open
+				nOK++
+				if cs != "pool" && cs != "!failed ∧ !pool" && cs != "!pool" {
+					okRet = false
+					det += fmt.Sprintf("success returned under [%s]; ", cs)
+				}
+				if cs == "!pool" {
+					// fall-through after the error block: every arm of the error block must have left the function
+					// (checked below through the fatal call)
+				}
+			} else {
+				nErr++
+				if cs != "!pool ∧ continue ∧ failed" {
+					okRet = false
+					det += fmt.Sprintf("error returned under [%s], must be [!pool ∧ continue ∧ failed]; ", cs)
+				}
+			}
+			return true
+		})
+		// the fatal exit
+		nFatal := 0
+		ast.Inspect(body, func(n ast.Node) bool {
+			if c, ok := n.(*ast.CallExpr); ok {
+				if f := callee(info, c); f != nil && f.Pkg() != nil && f.Pkg().Path() == "log" && strings.HasPrefix(f.Name(), "Fatal") {
+					nFatal++
+					if cs := condsOf(c); cs != "!continue ∧ !pool ∧ failed" {
+						okRet = false
+						det += fmt.Sprintf("process ended under [%s], must be [!continue ∧ !pool ∧ failed]; ", cs)
+					}
+				}
+			}
+			return true
+		})
+		if nErr != 1 || nFatal != 1 || nOK != 2 {
+			okRet = false
+			det += fmt.Sprintf("%d error returns, %d fatal exits, %d success returns (expected 1, 1, 2)", nErr, nFatal, nOK)
+		}
+		r.Ob("session:"+name+":failure", p.Pos(openCall.Pos()), okRet, orStr(det, "error returned under continue-on-error, process ended otherwise, success only without a failure"))
+		// a send on the optional log channel is guarded by the channel being there (a send on a nil channel blocks for ever)
+		ast.Inspect(body, func(n ast.Node) bool {
+			sd, ok := n.(*ast.SendStmt)
+			if !ok || !flag(sd.Chan, "debugOut") {
+				return true
+			}
+			cs, _ := astPathConds(info, body, sd)
+			guarded := false
+			for _, c := range cs {
+				if be, ok := stripParens(c.E).(*ast.BinaryExpr); ok && flag(be.X, "debugOut") {
+					if tv, ok := info.Types[be.Y]; ok && tv.IsNil() && (be.Op == token.NEQ) != c.Neg {
+						guarded = true
+					}
+				}
+			}
+			r.Ob("session:"+name+":log-channel", p.Pos(sd.Pos()), guarded, fmt.Sprintf("the message to the optional log channel is sent only when the channel is not nil: %v (a run started without a log channel would block for ever on its first unreadable file)", guarded))
+			return true
+		})
+	}
+	// the result-file opener: hands the path and the append flag on unchanged, ends the process exactly on failure
+	if fi := p.Funcs["hermes.HermesSession.OpenResultFile"]; fi == nil {
+		r.Ob("session:OpenResultFile", "-", false, "HermesSession.OpenResultFile not found")
+	} else {
+		info := fi.Pkg.TypesInfo
+		var params []types.Object
+		for _, f := range fi.Decl.Type.Params.List {
+			for _, n := range f.Names {
+				params = append(params, info.Defs[n])
+			}
+		}
+		ok, det := false, "call of the writer factory not found"
+		var resObj, errObj types.Object
+		ast.Inspect(fi.Decl.Body, func(n ast.Node) bool {
+			as, isAs := n.(*ast.AssignStmt)
+			if !isAs || len(as.Lhs) != 2 || len(as.Rhs) != 1 {
+				return true
+			}
+			call, isC := as.Rhs[0].(*ast.CallExpr)
+			if !isC || len(call.Args) != 2 || len(params) != 2 {
+				return true
+			}
+			if sel, isS := stripParens(call.Fun).(*ast.SelectorExpr); !isS || sel.Sel.Name != "HermesOutWriter" {
+				return true
+			}
+			ok = useObj(info, call.Args[0]) == params[0] && useObj(info, call.Args[1]) == params[1]
+			det = fmt.Sprintf("path and append flag handed on in order: %v", ok)
+			resObj, errObj = useObj(info, as.Lhs[0]), useObj(info, as.Lhs[1])
+			return true
+		})
+		if ok {
+			nF, nR := 0, 0
+			ast.Inspect(fi.Decl.Body, func(n ast.Node) bool {
+				switch t := n.(type) {
+				case *ast.CallExpr:
+					if f := callee(info, t); f != nil && f.Pkg() != nil && f.Pkg().Path() == "log" && strings.HasPrefix(f.Name(), "Fatal") {
+						nF++
+						cs, _ := astPathConds(info, fi.Decl.Body, t)
+						if len(cs) != 1 || !isNilCmp(info, cs[0].E, errObj, token.NEQ) || cs[0].Neg {
+							ok = false
+							det += "; the process is not ended exactly under 'opening failed'"
+						}
+					}
+				case *ast.ReturnStmt:
+					nR++
+					if len(t.Results) != 1 || useObj(info, t.Results[0]) != resObj {
+						ok = false
+						det += "; something other than the opened writer is returned"
+					}
+				}
+				return true
+			})
+			if nF != 1 || nR != 1 {
+				ok = false
+				det += fmt.Sprintf("; %d fatal exits, %d returns (expected 1, 1)", nF, nR)
+			}
+		}
+		r.Ob("session:OpenResultFile", p.Pos(fi.Decl.Pos()), ok, det)
+	}
 }
